@@ -2,6 +2,7 @@
 over the observables recorded by loopctl.py (oracles, independent of the Coq model), rendering
 of workloads / traces as Gallina literals for corr/SchedCorr.v."""
 import json
+import random
 
 from vcommon import gz, glist, gbool, gopt
 
@@ -106,8 +107,35 @@ def gen_workload(rng, profile="c06"):
             adopt = dict(code=code, done=marker or (rng.random() < (0.8 if code == 0 else 0.35)))
         spec.update(toks=toks, code=1 if rng.random() < pfail else 0, marker=marker, adopt=adopt)
         jobs.append(spec)
-    return dict(tokens=tokens, jobs=jobs, seed=rng.randrange(1 << 30), pbatch=rng.choice([0.0, 0.15, 0.4]),
-                pwait=rng.choice([0.0, 0.05, 0.15]))
+    w = dict(tokens=tokens, jobs=jobs, seed=rng.randrange(1 << 30), pbatch=rng.choice([0.0, 0.15, 0.4]),
+             pwait=rng.choice([0.0, 0.05, 0.15]))
+    # which implementation of the counter token: ProcessCounterToken or the file-based CounterToken (separate
+    # acquire/release code, same behaviour within one scheduler).  Drawn from a stream of its own.  A token on
+    # which one job has two requests stays in-process (one token file per job: C08/C09's ground).
+    krng = random.Random(w["seed"] ^ 0x70CE)
+    w["tokkind"] = ["file" if krng.random() < 0.4 and not any(sum(1 for tt, _ in s["toks"] if tt == t) > 1 for s in jobs)
+                    else "proc" for t in range(len(tokens))]
+    return w
+
+
+def partial_wakeups(w, t, c):
+    """coverage: a release that leaves a token with units available while a job that asks more than one unit of
+    it is still waiting, or that completes the units such a job waits for while the token was not empty"""
+    kinds = w.get("tokkind") or ["proc"] * len(w["tokens"])
+    prev = None
+    for s in t["steps"]:
+        av = s["snap"]["avail"]
+        if prev is not None:
+            for i, (a0, a1) in enumerate(zip(prev, av)):
+                if a1 > a0 > 0:
+                    for j, o in enumerate(s["snap"]["jobs"]):
+                        if o is None or o["result"] is not None or o["launches"]:
+                            continue
+                        need = sum(cc for tt, cc in w["jobs"][j]["toks"] if tt == i)
+                        if need > a0 and need >= 2:
+                            c.count(f"release-on-nonempty-token-with-multi-unit-waiter:{kinds[i]}:" +
+                                    ("enough" if need <= a1 else "still-short"))
+        prev = av
 
 
 def oversubscribed(tokens, toks):
@@ -585,6 +613,9 @@ def run_sched_check(c, profile, oracles, n_quick, n_thorough, golden_name, rule,
         nj = len(w["jobs"])
         c.count(f"jobs={nj}")
         c.count(f"tokens={len(w['tokens'])}")
+        for k in (w.get("tokkind") or ["proc"] * len(w["tokens"])):
+            c.count("token-kind:" + k)
+        partial_wakeups(w, t, c)
         c.count(f"steps={min(len(t['steps']) // 10 * 10, 90)}+")
         for j, spec in enumerate(w["jobs"]):
             c.count("exit:" + ("0" if spec["code"] == 0 else "nonzero"))
